@@ -428,7 +428,7 @@ def havoc_for_loop(self, node, st: State, spec: LoopSpec):
         if isinstance(v, Val):
             st.env[name] = mk_fresh(v.ty, name)
     for (oid, fld), val in list(st.heap.items()):
-        if isinstance(val, Val) and self.in_frame(st, oid, fld):
+        if isinstance(val, Val) and self.in_frame(st, oid, fld) and (spec.modifies is None or fld in spec.modifies):
             st.heap[(oid, fld)] = mk_fresh(val.ty, f"h.{fld}")
     for g in ("$out_set", "$out_count", "$out_seq"):
         if g in st.ghost:
@@ -448,6 +448,14 @@ def in_frame(self, st, oid, fld) -> bool:
 
 def check_inv(self, st: State, spec: LoopSpec, which: str, ordinal, ctx_extra):
     ctx = Ctx(self, st, self.self_ref, st.ghost.get("$args", {}), extra=ctx_extra)
+    if which == "pres" and spec.modifies is not None:
+        head = st.ghost.get(f"$loophead{ordinal}", {})
+        for key, cur in st.heap.items():
+            if key[1] in spec.modifies or key not in head:
+                continue
+            h = head[key]
+            if isinstance(cur, Val) and isinstance(h, Val) and not (cur.term is h.term or z3.eq(cur.term, h.term)):
+                self.oblige(st.fork(), cur.term == h.term, f"loop{ordinal}:frame:{key[1]}", "frame")
     for name, f in spec.inv:
         self.oblige(st, f(ctx), f"loop{ordinal}:{which}:{name}", "loop-" + which)
 
@@ -468,6 +476,7 @@ def s_While(self, node, st):
     self.check_inv(st, spec, "init", ordinal, {})
     st = st.fork()
     self.havoc_for_loop(node, st, spec)
+    st.ghost[f"$loophead{ordinal}"] = dict(st.heap)
     self.assume_inv(st, spec, {})
     out = []
 
@@ -549,28 +558,35 @@ def for_over(self, node, st: State, it):
         full = ops.set_keys(items_map).term
 
     if mode == "seq":
-        extra0 = {"i": z3.IntVal(0), "seq": it.term}
+        es = elem_ty.sort()
+        all_elems = ops.seq_elems(it.term, es)
+        sset_t = SetT(elem_ty)
+        extra0 = {"i": z3.IntVal(0), "seq": it.term, "seen_elems": sset_t.empty()}
         self.check_inv(st, spec, "init", ordinal, extra0)
         s = st.fork()
         self.havoc_for_loop(node, s, spec)
+        s.ghost[f"$loophead{ordinal}"] = dict(s.heap)
         i = z3.Int(fresh_name("i"))
         n = z3.Length(it.term)
+        seen_elems = z3.Const(fresh_name("seen_elems"), sset_t.sort())
+        s.assume(ops.set_subset(seen_elems, all_elems, es))
         # exit path
         s_exit = s.fork()
-        self.assume_inv(s_exit, spec, {"i": n, "seq": it.term})
+        self.assume_inv(s_exit, spec, {"i": n, "seq": it.term, "seen_elems": all_elems})
         s_exit.trail.append(f"for{ordinal}=exit")
         # body path
         s.assume(z3.And(i >= 0, i < n))
-        # theorem of the sequence theory, given as a hint (z3 does not find it unprompted)
+        # theorems of the sequence theory, given as hints (z3 does not find them unprompted)
         s.assume(z3.SubSeq(it.term, 0, i + 1) == z3.Concat(z3.SubSeq(it.term, 0, i), z3.Unit(it.term[i])))
-        self.assume_inv(s, spec, {"i": i, "seq": it.term})
+        s.assume(z3.Select(all_elems, it.term[i]))
+        self.assume_inv(s, spec, {"i": i, "seq": it.term, "seen_elems": seen_elems})
         s.trail.append(f"for{ordinal}=body")
         exits = [(OK, s_exit, None)]
         if quick_sat(s.pc):
             item = Val(it.term[i], elem_ty)
             for kind, s2, v in bind(self.assign_target(node.target, item, s), lambda s3, _x: self.exec_block(node.body, s3)):
                 if kind in (OK, CONT):
-                    self.check_inv(s2, spec, "pres", ordinal, {"i": i + 1, "seq": it.term})
+                    self.check_inv(s2, spec, "pres", ordinal, {"i": i + 1, "seq": it.term, "seen_elems": z3.Store(seen_elems, it.term[i], True)})
                 elif kind == BRK:
                     s2.ghost["$loop_broke"] = True
                     exits.append((OK, s2, None))
@@ -581,19 +597,24 @@ def for_over(self, node, st: State, it):
     # set-like iteration: arbitrary order, each element once
     sset = SetT(elem_ty)
     empty = sset.empty()
-    self.check_inv(st, spec, "init", ordinal, {"seen": empty, "full": full})
+    total = it.count if isinstance(it, GenVal) else ops.card(full, elem_ty.sort())
+    self.check_inv(st, spec, "init", ordinal, {"seen": empty, "full": full, "n_seen": z3.IntVal(0), "total": total})
     s = st.fork()
     self.havoc_for_loop(node, s, spec)
+    s.ghost[f"$loophead{ordinal}"] = dict(s.heap)
     seen = z3.Const(fresh_name("seen"), sset.sort())
+    n_seen = z3.Int(fresh_name("n_seen"))
     x = z3.Const(fresh_name("x"), elem_ty.sort())
     s.assume(ops.set_subset(seen, full, elem_ty.sort()))
+    s.assume(z3.And(n_seen >= 0, total >= 0))
     s_exit = s.fork()
     s_exit.assume(seen == full)
-    self.assume_inv(s_exit, spec, {"seen": full, "full": full})
+    s_exit.assume(n_seen == total)
+    self.assume_inv(s_exit, spec, {"seen": full, "full": full, "n_seen": total, "total": total})
     s_exit.trail.append(f"for{ordinal}=exit")
     exits = [(OK, s_exit, None)]
-    s.assume(z3.And(z3.Select(full, x), z3.Not(z3.Select(seen, x))))
-    self.assume_inv(s, spec, {"seen": seen, "full": full})
+    s.assume(z3.And(z3.Select(full, x), z3.Not(z3.Select(seen, x)), n_seen < total))
+    self.assume_inv(s, spec, {"seen": seen, "full": full, "n_seen": n_seen, "total": total})
     s.trail.append(f"for{ordinal}=body")
     if quick_sat(s.pc):
         if items_map is not None:
@@ -603,7 +624,7 @@ def for_over(self, node, st: State, it):
             item = Val(x, elem_ty)
         for kind, s2, v in bind(self.assign_target(node.target, item, s), lambda s3, _x: self.exec_block(node.body, s3)):
             if kind in (OK, CONT):
-                self.check_inv(s2, spec, "pres", ordinal, {"seen": z3.Store(seen, x, True), "full": full})
+                self.check_inv(s2, spec, "pres", ordinal, {"seen": z3.Store(seen, x, True), "full": full, "n_seen": n_seen + 1, "total": total})
             elif kind == BRK:
                 s2.ghost["$loop_broke"] = True
                 s2.ghost["$loop_seen"] = Val(z3.Store(seen, x, True), sset)
@@ -636,7 +657,7 @@ def s_Global(self, node, st):
 # ---------------------------------------------------------------------- generators
 def do_yield(self, st: State, val):
     ety = self.cur_gen_elem(st)
-    v = coerce(self.yield_repr(st, val), ety)
+    v = self.need(st, self.yield_repr(st, val), ety)
     hook = st.ghost.get("$yield_hook")
     if hook:
         hook(self, st, v)
